@@ -1604,13 +1604,60 @@ def run_prefix(case):
     return []
 
 
+def setpad_cases():
+    """two-step edits of one segment: a value far beyond its end (which creates several empty positions in one go), then a
+    component of one of those fresh positions -- every other position must stay as it is"""
+    out = []
+    for doc, loop, inst in TRANSPLANT:
+        t = _fresh(doc, loop)
+        for a, I in enumerate(t.select(inst)):
+            seen = set()
+            for ci, c in enumerate(I.children):
+                if c.type != 'seg' or c.id in seen:
+                    continue
+                seen.add(c.id)
+                for filler in (1, 2):
+                    for comp in (1, 2):
+                        out.append({'kind': 'setpad', 'doc': doc, 'loop': loop, 'inst': inst, 'a': a, 'child': ci, 'filler': filler, 'comp': comp})
+    return out
+
+
+def run_setpad(case):
+    t = _fresh(case['doc'], case['loop'])
+    I = list(t.select(case['inst']))[case['a']]
+    c = I.children[case['child']]
+    sid, els = parse_seg(c.seg_data.format())
+    n = len(els)
+    model = [list(x) for x in els]
+    steps = [(n + 3, None, VAL), (n + case['filler'], case['comp'], 'Q7')]
+    where = '%s %s #%d %s' % (case['doc'], case['inst'], case['a'] + 1, c.seg_data.format())
+    for (e, k, v) in steps:
+        pth = '%s%02d%s' % (sid, e, '-%d' % k if k else '')
+        st, r = call(lambda: I.set_value(pth, v))
+        if st == 'exc':
+            return [('C10|set_value|raises %s@%s' % (type(r).__name__, core.where(r)), where + ": set_value('%s') raised %r" % (pth, r))]
+        while len(model) < e:
+            model.append([''])
+        if k is None:
+            model[e - 1] = [v]
+        else:
+            while len(model[e - 1]) < k:
+                model[e - 1].append('')
+            model[e - 1][k - 1] = v
+        got = [x for x in _segs(I) if x.startswith(sid + '*')][0]
+        want = fmt_seg(sid, model) + '~'
+        if got != want:
+            return [('C10|set_value|changes other positions of the segment', where + ": after set_value('%s', %r) the segment is %s, expected %s" % (pth, v, got, want))]
+    return []
+
+
 def work_transplant(cases):
     _bind()
     P = core.Part()
     for case in cases:
         P.n += 1
-        P.out('%s|%s|%s' % (case['kind'], case['doc'], case.get('delete') or ('forward' if case['a'] < case['b'] else 'backward')))
-        for k, m in (run_prefix(case) if case['kind'] == 'prefix' else run_transplant(case)):
+        P.out('%s|%s|%s' % (case['kind'], case['doc'], case.get('delete') or case.get('filler') or ('forward' if case['a'] < case['b'] else 'backward')))
+        for k, m in (run_prefix(case) if case['kind'] == 'prefix' else run_setpad(case) if case['kind'] == 'setpad' else run_transplant(case)):
             P.bad(k, case, m)
     return P
 
@@ -1621,11 +1668,11 @@ def evaluate(case):
         for name in CFG:
             setup(name)
         return run_transplant(case)
-    if case.get('kind') == 'prefix':
+    if case.get('kind') in ('prefix', 'setpad'):
         _bind()
         for name in CFG:
             setup(name)
-        return run_prefix(case)
+        return run_prefix(case) if case['kind'] == 'prefix' else run_setpad(case)
     hist = [tup(e) for e in case['hist']]
     ms, im = replay(hist[:-1])
     viols, outcome = step(ms, im, hist[-1])
@@ -1651,10 +1698,11 @@ def run(R):
     for name, width, depth in plan:
         stats.append(search(R, name, width, depth, max_states=400000))
     R.cov['searches'] = stats
-    tc = transplant_cases() + prefix_cases()
+    tc = transplant_cases() + prefix_cases() + setpad_cases()
     R.pmap(work_transplant, core.chunks(tc, 8))
     R.cov['transplant_cases'] = len(tc)
     R.bounds = {
+        'setpad': 'for every child segment of every instance of the repeated loops: set the element three positions past its end, then a component (1, 2) of each of the two positions created on the way -- nothing else may change',
         'prefix': 'for every non-anchor child segment of every instance of the repeated loops: add the same segment extended by one element, then delete_segment the longer / the shorter one -- exactly the named one must go',
         'transplant': 'every (source instance, other instance, non-anchor child) of the repeated loops %r: copy the child, add_node it to the other instance, then read (exists/count/get_value of every direct child segment id of both instances through ../), write and delete through ../ -- each law on a fresh tree' % (TRANSPLANT,),
         'trees': {k: 'iter_segments(%s) of document %s, edited node = %s' % (v['loop'], v['doc'], '/'.join(v['base']) or 'the tree root') for k, v in CFG.items()},
